@@ -32,12 +32,12 @@ Next ==
        [] e.e = "TrackOnly" -> Step(ChkSynthesis(ds[e.d], e, TRUE), DriftSynthesis(ds[e.d], e, TRUE), e, Upd(e.d, NxtSynthesis(ds[e.d], e, TRUE)))
        [] e.e = "BlockinAgain" ->
             Step((IF e.rb \notin {0, OV_EINVALc} THEN {"BlockinReturnsDocumentedCode"} ELSE {}) \cup
-                 (IF ~DecBufOK(ds[e.d].B, Observed(e, ds[e.d].hs)) THEN {"BufferInsideRing"} ELSE {}), {}, e,
-                 Upd(e.d, [NxtObs(ds[e.d], e) EXCEPT !.chunkclean = FALSE, !.prevclean = FALSE, !.prev = -1]))
+                 (IF ~DecBufOK(ds[e.d].B, Observed(e, e.hsp)) THEN {"BufferInsideRing"} ELSE {}), {}, e,
+                 Upd(e.d, [NxtUnmodelled(ds[e.d], e) EXCEPT !.chunkclean = FALSE, !.prevclean = FALSE, !.prev = -1]))
        [] e.e = "PcmOut" -> Step(ChkPcmOut(ds[e.d], e), {}, e, ds)
-       [] e.e = "ReadP" -> Step(ChkRead(ds[e.d], e), {}, e, Upd(e.d, NxtObs(ds[e.d], e)))
+       [] e.e = "ReadP" -> Step(ChkRead(ds[e.d], e), {}, e, Upd(e.d, NxtRead(ds[e.d], e)))
        [] e.e = "Restart" -> Step(ChkRestart(ds[e.d], e), {}, e, Upd(e.d, NxtRestart(ds[e.d], e)))
-       [] e.e = "LapOut" -> Step(ChkLapOut(ds[e.d], e), {}, e, Upd(e.d, NxtObs(ds[e.d], e)))
+       [] e.e = "LapOut" -> Step(ChkLapOut(ds[e.d], e), {}, e, Upd(e.d, NxtUnmodelled(ds[e.d], e)))
        [] e.e = "InfoClear" ->
             Step((IF e.vch # 0 \/ e.vrate # 0 \/ e.vcs # 0 THEN {"InfoClearEmptiesInfo"} ELSE {}), {}, e, Upd(e.d, InitDec))
        [] e.e = "End" -> Step((IF e.objleft = 0 /\ e.live # 0 THEN {"ClearReleasesEverything"} ELSE {}), {}, e, ds)
